@@ -99,7 +99,7 @@ type rec struct {
 	// body of the section being recognised (to count the uses of a read temporary)
 	body *ast.BlockStmt
 	// decls: function declarations of the generated package (helpers a maintainer extracted are read in place)
-	decls map[*types.Func]*ast.FuncDecl
+	decls    map[*types.Func]*ast.FuncDecl
 	inlining int
 	markers  []string
 	// withNames: the names the specification binds with `with` in the section being recognised (canonical spelling)
@@ -258,13 +258,13 @@ func (r *rec) enterHelper(call *ast.CallExpr) (body []ast.Stmt, restore func(), 
 		return nil, nil, false
 	}
 	type saved struct {
-		o       types.Object
-		alias   []string
-		hasA    bool
-		handle  string
-		hasH    bool
-		ref     string
-		hasR    bool
+		o      types.Object
+		alias  []string
+		hasA   bool
+		handle string
+		hasH   bool
+		ref    string
+		hasR   bool
 	}
 	var undo []saved
 	for k, p := range params {
